@@ -95,6 +95,63 @@ let canon_doc (d : document) : string =
         "(" ^ String.concat "," vds ^ ")" ^ show_dirs o.op_dirs ^ canon_sels o.op_sels
       | DFrag f -> "fragment " ^ sb f.fr_name ^ " on " ^ sb f.fr_type ^ canon_sels f.fr_sels) d)
 
+(* the canonical form of a request WITH the schema it is sent to: per object type the selection set can be evaluated on, the
+   fields it collects there (inline fragments resolved as CollectFields does, fields of one response key merged), as a set.
+   Two requests with the same canonical form ask every object the subgraph can return for the same fields. *)
+let canon_doc_t (sc : schema) (d : document) : string =
+  let find_td n = List.find_opt (fun td -> td.td_name = n) sc.s_types in
+  let rec named = function TNamed t -> t | TList t | TNonNull t -> named t in
+  let is_entity_ty t = (sb t = "_Entity") in
+  (* the type conditions written in a selection set (for types the schema does not enumerate, e.g. _Entity) *)
+  let rec conds (l : selection list) : bytes list =
+    List.concat_map (function SInline (Some c, _, ss) -> c :: conds ss | SInline (None, _, ss) -> conds ss | _ -> []) l in
+  let applies (c : bytes) (cond : bytes) = is_entity_ty cond || type_applies sc c cond in
+  let rec collect (c : bytes) (l : selection list) : selection list =
+    List.concat_map (fun s -> match s with
+        | SField _ -> [s]
+        | SInline (None, _, ss) -> collect c ss
+        | SInline (Some cond, _, ss) -> if applies c cond then collect c ss else []
+        | SSpread _ -> [s]) l in
+  let rec sels (ty : bytes) (l : selection list) : string =
+    if l = [] then "" else
+      let ctypes =
+        (match find_td ty with
+         | Some { td_kind = KObject; _ } -> [ty]
+         | Some { td_kind = (KInterface | KUnion); _ } ->
+           List.filter_map (fun td -> if td.td_kind = KObject && type_applies sc td.td_name ty then Some td.td_name else None) sc.s_types
+         | _ -> List.sort_uniq compare (conds l)) in
+      let ctypes = if ctypes = [] then [ty] else ctypes in
+      let one (c : bytes) : string =
+        let fl = collect c l in
+        let keys = List.sort_uniq compare (List.map sel_key0 fl) in
+        "{" ^ String.concat " " (List.map (fun k ->
+            let same = List.filter (fun s -> sel_key0 s = k) fl in
+            (match List.hd same with
+             | SField (a, n, args, dirs, _) ->
+               let subs = List.concat_map (function SField (_, _, _, _, ss) -> ss | _ -> []) same in
+               let fty = (if sb n = "_entities" then bs "_Entity" else
+                            match find_td c with
+                            | Some td -> (match List.find_opt (fun fd -> fd.fd_name = n) td.td_fields with Some fd -> named fd.fd_type | None -> bs "?")
+                            | None -> bs "?") in
+               (match a with Some x -> sb x ^ ":" | None -> "") ^ sb n ^ show_args args ^ show_dirs dirs ^ sels fty subs
+             | SSpread (n, dirs) -> "..." ^ sb n ^ show_dirs dirs
+             | SInline _ -> "")) keys) ^ "}" in
+      (match ctypes with
+       | [c] when (match find_td ty with Some { td_kind = KObject; _ } -> true | _ -> false) -> one c
+       | _ -> String.concat "" (List.map (fun c -> "<" ^ sb c ^ ">" ^ one c) ctypes))
+  and sel_key0 (s : selection) = match s with SField (a, n, _, _, _) -> (match a with Some x -> sb x | None -> sb n) | SSpread (n, _) -> "..." ^ sb n | SInline _ -> "" in
+  String.concat " ; " (List.map (function
+      | DOp o ->
+        let used = List.concat_map sel_vars o.op_sels in
+        let vds = List.filter (fun vd -> List.mem (sb vd.vd_name) used) o.op_vars in
+        let vds = List.sort compare (List.map (fun vd -> "$" ^ sb vd.vd_name ^ ":" ^ show_ty vd.vd_type ^
+                                                         (match vd.vd_default with Some v -> "=" ^ show_value v | None -> "")) vds) in
+        let root = (match o.op_kind with OpQuery -> sc.s_query | OpMutation -> (match sc.s_mutation with Some m -> m | None -> bs "Mutation")
+                                       | OpSubscription -> (match sc.s_subscription with Some m -> m | None -> bs "Subscription")) in
+        (match o.op_kind with OpQuery -> "query" | OpMutation -> "mutation" | OpSubscription -> "subscription") ^
+        "(" ^ String.concat "," vds ^ ")" ^ show_dirs o.op_dirs ^ sels root o.op_sels
+      | DFrag f -> "fragment " ^ sb f.fr_name ^ " on " ^ sb f.fr_type ^ sels f.fr_type f.fr_sels) d)
+
 (* unordered JSON equality (object member order is not part of a JSON value) *)
 let rec json_ueq (a : json) (c : json) : bool =
   match a, c with
@@ -368,23 +425,38 @@ let translate3 (super : schema) (subs : (string * schema) list) (op : document) 
   let used = ref [] in
   let maxdepth = ref 0 in
   let is_obj tn' = (match find_type_s super tn' with Some { td_kind = KObject; _ } -> true | _ -> false) in
-  (* the annotated sub-selection of the object of type [ty] at [path], produced by fetch [src] which was asked [src_sel] for it *)
+  let varsJ = pvars o.op_vars sup in
+  let below p = List.exists (fun f -> is_prefix p (path_of f)) others in
+  let has_inline l = List.exists (function SInline _ -> true | _ -> false) l in
+  let is_tn_sel s = (match s with SField (None, n, [], [], []) -> sb n = "__typename" | _ -> false) in
+  (* first occurrences of the response keys; a repeated key must be a leaf selected again *)
+  let dedup_first (l : selection list) : selection list =
+    let rec go seen = function
+      | [] -> []
+      | s :: r ->
+        let k = sel_key_s s in
+        if List.mem k seen then
+          (match s with SField (_, _, _, _, []) -> go seen r | _ -> raise (Outside "abstract_composite_field_selected_twice"))
+        else s :: go (k :: seen) r in
+    go [] l in
+  (* the annotated sub-selection of the object of type [ty] at [path], produced by fetch [src] which was asked [src_sel] for it;
+     [client] and [src_sel] are field lists (flattened at [ty] below a position resolved per runtime type) *)
   let rec build_pt (depth : int) (ty : string) (client : selection list) (path : string list) (src : rfetch) (src_sel : selection list) : ptree =
     if depth > !maxdepth then maxdepth := depth;
-    (* the sources of this position: 0 = src, then the entity fetches at this path, each reading its keys off an earlier source *)
+    (* the sources of this position: 0 = src, then the entity fetches at this path for this type, each reading its keys off earlier sources *)
     let sources = ref [(src, src_sel)] in
     let fentries = ref [] in
+    let here = ref [] in
     let progress = ref true in
     while !progress do
       progress := false;
       List.iter (fun f ->
-          if path_of f = path && not (List.memq f !used) then
+          if path_of f = path && not (List.memq f !here) && fst (ent_sel_of f) = ty then
             (* placed once every fetch it depends on is a source of this position *)
             (if List.for_all (fun d -> List.exists (fun (g, _) -> g.f_id = d) !sources) f.f_deps then begin
                let dep_srcs = List.filter (fun (_, (g, _)) -> List.mem g.f_id f.f_deps) (List.mapi (fun i x -> (i, x)) !sources) in
-               used := f :: !used; progress := true;
+               here := f :: !here; if not (List.memq f !used) then used := f :: !used; progress := true;
                let (t, sel) = ent_sel_of f in
-               if t <> ty then raise (Outside "abstract_entity_fetch");
                let selB = if tn then List.tl sel else sel in
                let si = match index_of_sub subs f.f_sub with Some i -> i | None -> raise (Translate "unknown_subgraph") in
                let ks = (match repr_fields f t with "__typename" :: ks -> ks | _ -> raise (Translate "representation_without_typename")) in
@@ -408,10 +480,9 @@ let translate3 (super : schema) (subs : (string * schema) list) (op : document) 
                fentries := !fentries @ [((List.map (fun (i, l) -> (nat_of_int i, List.map bs l)) deps, nat_of_int si), List.map bs ks)]
              end)) others
     done;
-    let below p = List.exists (fun f -> is_prefix p (path_of f) && path_of f <> p || path_of f = p) others in
     let items = List.map (fun s ->
         match s with
-        | SField (a, n, args, dirs, ss) ->
+        | SField (a, n, _, dirs, _) ->
           if dirs <> [] then raise (Outside "field_directive_at_fetch_position");
           let key = response_key a n in
           (* the first source that was asked for this response key *)
@@ -419,24 +490,49 @@ let translate3 (super : schema) (subs : (string * schema) list) (op : document) 
             | [] -> raise (Translate ("no_source_for_field:" ^ String.concat "." (path @ [key])))
             | (g, sel) :: r -> (match List.find_opt (fun x -> sel_key_s x = key) sel with Some x -> (i, g, x) | None -> find (i + 1) r) in
           let (tag, g, x) = find 0 !sources in
-          let p' = path @ [key] in
-          if ss = [] || not (below p') then (nat_of_int tag, PKeep s)
-          else begin
-            let fty = (match field_type super ty (sb n) with Some t -> t | None -> raise (Translate "unknown_field")) in
-            let rec named = function TNamed t -> sb t | TList t | TNonNull t -> named t in
-            let t' = named fty in
-            if not (is_obj t') then raise (Outside "abstract_position");
-            let shape = match fty with
-              | TNamed _ -> ShObj false | TNonNull (TNamed _) -> ShObj true
-              | TList (TNamed _) -> ShList (false, false) | TList (TNonNull (TNamed _)) -> ShList (false, true)
-              | TNonNull (TList (TNamed _)) -> ShList (true, false) | TNonNull (TList (TNonNull (TNamed _))) -> ShList (true, true)
-              | _ -> raise (Outside "nested_list_field") in
-            let xsel = (match x with SField (_, _, _, _, xs) -> xs | _ -> []) in
-            (nat_of_int tag, PDown (a, n, args, shape, bs t', build_pt (depth + 1) t' ss p' g xsel))
-          end
+          (nat_of_int tag, mk_item depth ty path g x s)
         | SInline _ -> raise (Outside "inline_fragment_at_fetch_position")
         | SSpread _ -> raise (Outside "fragment_spread")) client in
-    PT (items, !fentries) in
+    PT (items, !fentries)
+  (* the client's field [s] of an object of type [ty] at [path]; source [g] was asked [x] for it *)
+  and mk_item (depth : int) (ty : string) (path : string list) (g : rfetch) (x : selection) (s : selection) : pitem =
+    match s with
+    | SField (a, n, args, _, ss) ->
+      let p' = path @ [response_key a n] in
+      let xsel = (match x with SField (_, _, _, _, xs) -> xs | _ -> []) in
+      if ss = [] || (not (below p') && xsel = ss) then PKeep s
+      else begin
+        let fty = (match field_type super ty (sb n) with Some t -> t | None -> raise (Translate "unknown_field")) in
+        let rec named = function TNamed t -> sb t | TList t | TNonNull t -> named t in
+        let t' = named fty in
+        let shape = match fty with
+          | TNamed _ -> ShObj false | TNonNull (TNamed _) -> ShObj true
+          | TList (TNamed _) -> ShList (false, false) | TList (TNonNull (TNamed _)) -> ShList (false, true)
+          | TNonNull (TList (TNamed _)) -> ShList (true, false) | TNonNull (TList (TNonNull (TNamed _))) -> ShList (true, true)
+          | _ -> raise (Outside "nested_list_field") in
+        if is_obj t' && not (has_inline ss) && not (has_inline xsel) then
+          PDown (a, n, args, shape, bs t', build_pt (depth + 1) t' ss p' g xsel)
+        else begin
+          (* resolved per runtime type: one plan tree per object type the field can return, over the selections flattened at it *)
+          let ctypes = List.filter (fun td -> td.td_kind = KObject && type_applies super td.td_name (bs t')) super.s_types in
+          let fuel = abs_fuel ss xsel in
+          let alts = List.map (fun td ->
+              let c = td.td_name in
+              let flat l = (match flatten super [] varsJ fuel c l with FlatOk fl -> fl | FlatBad _ -> raise (Outside "abstract_flatten")) in
+              let lc = dedup_first (flat ss) and lr = dedup_first (flat xsel) in
+              if lc <> flat ss then raise (Outside "abstract_field_selected_twice");
+              let pt = build_pt (depth + 1) (sb c) lc p' g lr in
+              (* the planner's own __typename: asked in front of the tree's projection when neither the client nor a key asks for it *)
+              let h = not (has_tn_sel (pt_proj pt)) in
+              ((c, h), pt)) ctypes in
+          (* the selection the MODEL asks the source for: per object type the projection of its tree; that the real request
+             asks the same of every object is the request comparison (canon_doc_t) *)
+          let rsel = List.map (fun ((c, h), pt) -> SInline (Some c, [], (if h then SField (None, bs "__typename", [], [], []) :: pt_proj pt else pt_proj pt))) alts in
+          ignore xsel;
+          PAbs (a, n, args, shape, bs t', ss, rsel, alts)
+        end
+      end
+    | _ -> raise (Outside "inline_fragment_at_fetch_position") in
   let root_of_key = List.concat_map (fun f -> List.map (fun k -> (k, f)) (root_field_keys f)) roots in
   let seen = Hashtbl.create 8 in
   let ds = List.map (fun s ->
@@ -453,23 +549,11 @@ let translate3 (super : schema) (subs : (string * schema) list) (op : document) 
           | [] -> raise (Translate ("no_root_fetch_for_field:" ^ key))
           | _ -> raise (Outside "root_field_in_several_root_fetches") in
         let ri = match index_of_sub subs rootf.f_sub with Some i -> i | None -> raise (Translate "unknown_subgraph") in
-        let below = List.exists (fun f -> is_prefix [key] (path_of f)) others in
-        if ss = [] || not below then { r3_root = nat_of_int ri; r3_item = PKeep s }
-        else begin
-          let fty = (match field_type super (sb super.s_query) (sb n) with Some t -> t | None -> raise (Translate "unknown_root_field")) in
-          let rec named = function TNamed t -> sb t | TList t | TNonNull t -> named t in
-          let t' = named fty in
-          if not (is_obj t') then raise (Outside "abstract_root_field");
-          let shape = match fty with
-            | TNamed _ -> ShObj false | TNonNull (TNamed _) -> ShObj true
-            | TList (TNamed _) -> ShList (false, false) | TList (TNonNull (TNamed _)) -> ShList (false, true)
-            | TNonNull (TList (TNamed _)) -> ShList (true, false) | TNonNull (TList (TNonNull (TNamed _))) -> ShList (true, true)
-            | _ -> raise (Outside "nested_list_root_field") in
-          let rsel = (match rootf.f_doc with
-              | Some [DOp ro] -> (match List.find_opt (fun x -> sel_key_s x = key) ro.op_sels with Some (SField (_, _, _, _, xs)) -> xs | _ -> [])
-              | _ -> []) in
-          { r3_root = nat_of_int ri; r3_item = PDown (a, n, args, shape, bs t', build_pt 1 t' ss [key] rootf rsel) }
-        end
+        let x = (match rootf.f_doc with
+            | Some [DOp ro] -> (match List.find_opt (fun x -> sel_key_s x = key) ro.op_sels with Some x -> x | None -> raise (Translate ("root_field_not_requested:" ^ key)))
+            | _ -> raise (Translate "root_doc_shape")) in
+        ignore args; ignore ss;
+        { r3_root = nat_of_int ri; r3_item = mk_item 0 (sb super.s_query) [] rootf x s }
       | SInline _ -> raise (Outside "root_inline_fragment")
       | SSpread _ -> raise (Outside "root_fragment_spread")) o.op_sels in
   List.iter (fun f ->
@@ -482,7 +566,51 @@ let translate3 (super : schema) (subs : (string * schema) list) (op : document) 
         else raise (Translate ("fetch_not_placed:" ^ f.f_path))
       end) others;
   { t3_vds = o.op_vars; t3_sup = sup; t3_tn = tn; t3_ds = ds; t3_roots = roots; t3_others = others; t3_depth = !maxdepth; t3_abstract = abstract }
-  with Translate _ when abstract -> raise (Outside "abstract_selection")
+  with Translate w when abstract ->
+    if Sys.getenv_opt "C01P_DEBUG" = Some "1" then prerr_endline ("ABS translate: " ^ w);
+    raise (Outside "abstract_selection")
+
+(* ---------------------------------------------------------------- why the tree validator said no *)
+let diagnose3 sc (subsl : schema list) vds sup kq decls rdecls (kd : nat) (ds : rfield3 list) : string =
+  let vars = pvars vds sup in
+  let show l = String.concat " " (List.map (fun s -> match s with SField (a, n, _, _, _) -> response_key a n | SInline _ -> "..." | SSpread _ -> "...s") l) in
+  let rec pred = function O -> O | S k -> k in
+  let rec go_pt (k : nat) (path : string) (ty : bytes) (pt : ptree) : string option =
+    if pt_static_b sc subsl [] vds sup kq true decls rdecls k ty pt then None else
+      let PT (items, fetches) = pt in
+      let k' = pred k in
+      (match List.find_map (fun (_, it) -> go_item k' path ty it) items with
+       | Some w -> Some w
+       | None ->
+         if not (names_distinct (List.map (fun (_, it) -> item_key it) items)) then Some (path ^ ": response keys not distinct")
+         else if not (List.for_all (fun (_, it) -> item_unaliased (fetch_keys fetches) it) items) then Some (path ^ ": a client field aliased to a key name")
+         else if not (fetches_static_b sc subsl [] vds sup kq decls rdecls ty items fetches (S O) fetches) then Some (path ^ ": fetches_static_b")
+         else Some (path ^ ": position of type " ^ sb ty))
+  and go_item (k : nat) (path : string) (ty : bytes) (it : pitem) : string option =
+    if item_static_b sc subsl [] vds sup kq true decls rdecls k ty it then None else
+      (match it with
+       | PKeep s -> Some (path ^ "." ^ show [s] ^ ": kept field not plain")
+       | PDown (a, n, _, _, t', sub) -> (match go_pt (pred k) (path ^ "." ^ response_key a n) t' sub with Some w -> Some w | None -> Some (path ^ "." ^ response_key a n ^ ": field type / shape"))
+       | PAbs (a, n, _, _, t', csel, rsel, alts) ->
+         let p = path ^ "." ^ response_key a n in
+         let fuel = abs_fuel csel rsel in
+         let r = List.find_map (fun td ->
+             if not (td.td_kind = KObject && type_applies sc td.td_name t') then None else
+               (match find_alt td.td_name alts with
+                | None -> Some (p ^ ": no plan tree for " ^ sb td.td_name)
+                | Some (h, sub) ->
+                  let fc = flatten sc [] vars fuel td.td_name csel and fr = flatten sc [] vars fuel td.td_name rsel in
+                  let tnsel = SField (None, bs "__typename", [], [], []) in
+                  let sh = function FlatOk l -> show l | FlatBad _ -> "<bad>" in
+                  if not (flat_is fc (pt_client sub)) then Some (Printf.sprintf "%s on %s: client selection flattened [%s] tree [%s]" p (sb td.td_name) (sh fc) (show (pt_client sub)))
+                  else if not (flat_is fr (if h then tnsel :: pt_proj sub else pt_proj sub)) then Some (Printf.sprintf "%s on %s: source selection flattened [%s] tree [%s]" p (sb td.td_name) (sh fr) (show (pt_proj sub)))
+                  else if not h && not (has_tn_sel (pt_proj sub)) then Some (Printf.sprintf "%s on %s: no __typename in the source's selection" p (sb td.td_name))
+                  else go_pt (pred k) (p ^ "<" ^ sb td.td_name ^ ">") td.td_name sub)) sc.s_types in
+         (match r with Some w -> Some w | None -> Some (p ^ ": abstract field type / shape / spreads")))
+  in
+  match List.find_map (fun d -> go_item kd "" sc.s_query d.r3_item) ds with
+  | Some w -> w
+  | None -> "root level"
 
 (* ---------------------------------------------------------------- why the validator said no: the failed hypothesis *)
 let diagnose sc (subsl : schema list) vds sup g0 kq decls rdecls tn (ds2 : dfield2 list) : string =
@@ -565,6 +693,7 @@ let handle (x : sexp) : (string * string) list =
     let pair_tail = Printf.sprintf "(e2e %s %d)" (if e2e_agree then "agree" else "DISAGREE") (List.length runs) in
     (* ---- plan TREES (theorem tv3_sound): tried first; the depth-1 form (theorem tv2_sound) is the fallback ---- *)
     let v3_why = ref "" in
+    let v3_diag = ref "" in
     let v3 : (string * string) list option =
       try
         let t = translate3 super subs op vars fetches in
@@ -580,20 +709,22 @@ let handle (x : sexp) : (string * string) list =
         if cd <> op_anon then add "mismatch" ("corr:C01p/client_doc (pair " ^ ids ^ ") the translated plan tree does not reproduce the planner's operation");
         (* the model's requests are the real plan's fetches *)
         let mreqs = model_requests3s (nat_of_int (List.length subsl)) t.t3_vds [] t.t3_tn t.t3_ds in
-        let real_doc f = match f.f_doc with Some d -> canon_doc d | None -> "" in
+        let sub_schema name = (match List.assoc_opt name subs with Some sc -> sc | None -> super) in
+        let cdoc name d = canon_doc_t (sub_schema name) d in
+        let real_doc f = match f.f_doc with Some d -> cdoc f.f_sub d | None -> "" in
         List.iter (fun mr ->
             match mr with
             | MRoot3 (g, doc) ->
               (match List.filter (fun f -> f.f_sub = sub_name g) t.t3_roots with
-               | [f] -> if canon_doc doc <> real_doc f then
-                   add "mismatch" (Printf.sprintf "corr:C01p/plan_form (pair %s) root request to %s: model %s real %s" ids (sub_name g) (quote_string (canon_doc doc)) (quote_string (real_doc f)))
+               | [f] -> if cdoc (sub_name g) doc <> real_doc f then
+                   add "mismatch" (Printf.sprintf "corr:C01p/plan_form (pair %s) root request to %s: model %s real %s" ids (sub_name g) (quote_string (cdoc (sub_name g) doc)) (quote_string (real_doc f)))
                | _ -> add "mismatch" (Printf.sprintf "corr:C01p/plan_form (pair %s) no single real root fetch on %s" ids (sub_name g)))
             | MEntity3 (path, si, doc, rf) ->
               let p = List.map sb path in
-              (match List.filter (fun f -> path_of f = p && f.f_sub = sub_name si && canon_doc doc = real_doc f) t.t3_others with
+              (match List.filter (fun f -> path_of f = p && f.f_sub = sub_name si && cdoc (sub_name si) doc = real_doc f) t.t3_others with
                | [] ->
                  add "mismatch" (Printf.sprintf "corr:C01p/plan_form (pair %s) entity request at %s to %s: model %s has no real counterpart; real at that path: %s" ids
-                                   (String.concat "." p) (sub_name si) (quote_string (canon_doc doc))
+                                   (String.concat "." p) (sub_name si) (quote_string (cdoc (sub_name si) doc))
                                    (String.concat " | " (List.map (fun f -> f.f_sub ^ ":" ^ real_doc f) (List.filter (fun f -> path_of f = p) t.t3_others))))
                | f :: _ ->
                  (* the representation template names the model's representation fields *)
@@ -602,27 +733,38 @@ let handle (x : sexp) : (string * string) list =
                    add "mismatch" (Printf.sprintf "corr:C01p/plan_form (pair %s) representation fields at %s: model [%s] real [%s]" ids
                                      (String.concat "." p) (String.concat " " (List.map sb rf)) (String.concat " " tfields)))) mreqs;
         let n_mroot = List.length (List.filter (function MRoot3 _ -> true | _ -> false) mreqs) in
-        let n_ment = List.length mreqs - n_mroot in
+        (* a fetch below a position resolved per runtime type appears once per alternative it serves: counted once *)
+        let n_ment = List.length (List.sort_uniq compare (List.filter_map (function
+            | MEntity3 (path, si, doc, _) -> Some (List.map sb path, int_of_nat si, cdoc (sub_name si) doc)
+            | MRoot3 _ -> None) mreqs)) in
         if n_mroot <> List.length t.t3_roots then add "mismatch" (Printf.sprintf "corr:C01p/plan_form (pair %s) %d model root fetches, %d real" ids n_mroot (List.length t.t3_roots));
         if n_ment <> List.length t.t3_others then add "mismatch" (Printf.sprintf "corr:C01p/plan_form (pair %s) %d model entity fetches, %d real" ids n_ment (List.length t.t3_others));
-        if t.t3_abstract && !out <> [] then raise (Outside "abstract_selection");
-        (* the validator *)
-        let accepted = tv3_static_b super subsl [] t.t3_vds t.t3_sup kq decls rdecls kdepth t.t3_ds in
-        if not accepted && t.t3_abstract then raise (Outside "abstract_selection:rejected");
-        if not accepted then raise Exit;
+        if t.t3_abstract && !out <> [] then begin
+          if Sys.getenv_opt "C01P_DEBUG" = Some "1" then List.iter (fun (_, d) -> prerr_endline ("ABS " ^ d)) !out;
+          raise (Outside "abstract_selection")
+        end;
+        (* the validator: with positions resolved per runtime type (tv4_sound) when the tree has any, else tv3_sound *)
+        let rec pt_abs (PT (items, _)) = List.exists (fun (_, it) -> item_abs it) items
+        and item_abs = function PKeep _ -> false | PDown (_, _, _, _, _, sub) -> pt_abs sub | PAbs _ -> true in
+        let has_abs = List.exists (fun d -> item_abs d.r3_item) t.t3_ds in
+        let static_b = if has_abs then tv4_static_b else tv3_static_b in
+        let contract_b = if has_abs then univ4_contract_b else univ3_contract_b in
+        let theorem = if has_abs then "tv4_sound" else "tv3_sound" in
+        let accepted = static_b super subsl [] t.t3_vds t.t3_sup kq decls rdecls kdepth t.t3_ds in
+        if not accepted then (v3_diag := diagnose3 super subsl t.t3_vds t.t3_sup kq decls rdecls kdepth t.t3_ds; raise Exit);
         let in_contract = ref 0 in
         let order_diffs = ref 0 in
         List.iter (fun r ->
-            let contract = univ3_contract_b super subsl decls rdecls r.u_uni in
+            let contract = contract_b super subsl decls rdecls r.u_uni in
             if contract then incr in_contract;
             (* every request the engine sent is one of the model's requests (the engine batches the per-object entity
                requests of one fetch and sends identical requests once) *)
             List.iter (fun q ->
-                let qd = match q.r_doc with Some d -> canon_doc d | None -> "" in
+                let qd = match q.r_doc with Some d -> cdoc q.r_sub d | None -> "" in
                 if not (List.exists (fun mr -> match mr with
-                    | MRoot3 (g, doc) -> q.r_sub = sub_name g && canon_doc doc = qd
+                    | MRoot3 (g, doc) -> q.r_sub = sub_name g && cdoc q.r_sub doc = qd
                     | MEntity3 (_, si, doc, rf) ->
-                      q.r_sub = sub_name si && canon_doc doc = qd &&
+                      q.r_sub = sub_name si && cdoc q.r_sub doc = qd &&
                       (match q.r_vars with
                        | JObj rm -> (match List.assoc_opt (bs "representations") rm with
                            | Some (JArr reps) -> List.for_all (function JObj m -> List.sort compare (List.map (fun (k, _) -> sb k) m) = List.sort compare (List.map sb rf) | _ -> false) reps
@@ -651,7 +793,7 @@ let handle (x : sexp) : (string * string) list =
         let nsub = List.length subsl in
         let try_mut ds' =
           incr mut_total;
-          if not (tv3_static_b super subsl [] t.t3_vds t.t3_sup kq decls rdecls kdepth ds') then incr mut_rejected in
+          if not (static_b super subsl [] t.t3_vds t.t3_sup kq decls rdecls kdepth ds') then incr mut_rejected in
         (* mutate the first position that has a fetch: wrong subgraph, representation without keys, a fetched field re-tagged *)
         let rec mut_pt (f : ptree -> ptree option) (pt : ptree) : ptree option =
           match f pt with
@@ -694,13 +836,13 @@ let handle (x : sexp) : (string * string) list =
            | Some ds' -> try_mut ds' | None -> ())
         end;
         let nt = if t.t3_others <> [] then "nt" else "tr" in
-        add "ok" (Printf.sprintf "%s (pair %s (inside) (accepted true) (theorem tv3_sound) (depth %d) (tn %b) (roots %d) (entity_fetches %d) (contract %d %d) (mutants %d %d) (abstract %b) (member_order_diffs %d) %s)"
-                    nt ids t.t3_depth t.t3_tn (List.length t.t3_roots) (List.length t.t3_others) !in_contract (List.length runs) !mut_rejected !mut_total t.t3_abstract !order_diffs pair_tail);
+        add "ok" (Printf.sprintf "%s (pair %s (inside) (accepted true) (theorem %s) (depth %d) (tn %b) (roots %d) (entity_fetches %d) (contract %d %d) (mutants %d %d) (abstract %b) (member_order_diffs %d) %s)"
+                    nt ids theorem t.t3_depth t.t3_tn (List.length t.t3_roots) (List.length t.t3_others) !in_contract (List.length runs) !mut_rejected !mut_total t.t3_abstract !order_diffs pair_tail);
         Some (List.rev !out)
       with
       | Outside f -> v3_why := "outside:" ^ f; None
       | Translate w -> v3_why := "translate:" ^ w; None
-      | Exit -> v3_why := "rejected"; None in
+      | Exit -> v3_why := "rejected: " ^ !v3_diag; None in
     match v3 with
     | Some res -> res
     | None ->
@@ -837,7 +979,7 @@ let handle (x : sexp) : (string * string) list =
      | Outside feat ->
        let f3 = !v3_why in
        let feat' = if String.length f3 > 8 && String.sub f3 0 8 = "outside:" then String.sub f3 8 (String.length f3 - 8) else feat in
-       if f3 = "rejected" || (String.length f3 > 10 && String.sub f3 0 10 = "translate:") then
+       if (String.length f3 >= 8 && String.sub f3 0 8 = "rejected") || (String.length f3 > 10 && String.sub f3 0 10 = "translate:") then
          [("specfail", Printf.sprintf "plan_ok/rejected-in-fragment (pair %s (inside) (accepted false) %s (why %s))" ids pair_tail (quote_string ("plan tree: " ^ f3)))]
        else [("ok", Printf.sprintf "tr (pair %s (outside %s) %s)" ids (quote_string feat') pair_tail)]
      | Translate why -> [("mismatch", Printf.sprintf "corr:C01p/translate (pair %s) %s %s" ids (quote_string why) pair_tail)]))
